@@ -13,6 +13,7 @@ import (
 	"verif/internal/evid"
 	"verif/props/c01"
 	"verif/props/c03"
+	"verif/props/c04"
 	"verif/props/c05"
 	"verif/props/c06"
 	"verif/props/c07"
@@ -32,6 +33,7 @@ type prop struct {
 var props = map[string]prop{
 	"C01": {"exploration", c01.Run, c01.Replay},
 	"C03": {"exploration", c03.Run, c03.Replay},
+	"C04": {"exploration", c04.Run, c04.Replay},
 	"C05": {"fault_enumeration", c05.Run, c05.Replay},
 	"C06": {"model_checking", c06.Run, c06.Replay},
 	"C07": {"fault_enumeration", c07.Run, c07.Replay},
